@@ -176,3 +176,6 @@ Qed.
 
 Lemma acc_spec_length xs : length (acc_spec xs) = length xs.
 Proof. apply tabulate_length. Qed.
+
+Lemma accumulate_empty s : accumulate s [] = [].
+Proof. destruct s; reflexivity. Qed.
